@@ -1,6 +1,6 @@
 (* C05 — the ANN index always refers to exactly the live documents. *)
 From Coq Require Import ZArith Floats List.
-From Syz Require Import Quant Dist Search Lsh LshProofs.
+From Syz Require Import Quant Dist Search Lsh LshProofs ApproxNonEmpty ApproxCovering.
 Open Scope Z_scope.
 
 (* inv t D: the tree t indexes exactly the documents D — every id exactly once, none missing,
@@ -32,3 +32,17 @@ Print Assumptions C05_remove.
 Theorem C05_empty : forall cosine, inv cosine (Leaf nil) nil.
 Proof. exact inv_empty_leaf. Qed.
 Print Assumptions C05_empty.
+
+(* the observable consequence: a default-precision radius search whose radius covers the accepted documents
+   returns every live accepted document the index holds — for every forest whose leaves hold only live ids
+   (C05_insert / C05_remove maintain that), without nil children, for every query and every order of the node
+   queue, PROVIDED no hyperplane lies farther from the query than the radius (geometry: a plane that separates
+   the query from a document is at most as far as that document; under binary64 rounding this is a hypothesis,
+   not a theorem): nothing is pruned, nothing is merely "checked", the early-stop counter never runs. *)
+Theorem C05_covering : forall cosine q K R docs forest id, PrimFloat.ltb 0 R = true ->
+  (forall d, In d docs -> sd_ok d = true -> PrimFloat.leb (distance cosine q (sd_vec d)) R = true) ->
+  Forall (tree_okr cosine q (vector_length q) R docs) forest ->
+  wanted docs id -> (exists t, In t forest /\ In id (leaf_ids t)) ->
+  In id (map fst (fst (fst (search_approx cosine q K R docs forest)))).
+Proof. exact approx_covering. Qed.
+Print Assumptions C05_covering.
